@@ -605,7 +605,7 @@ def correspondence(ctx, verdict, pr):
                               'smallest differing case: %s\nimplementation: %s\nmodel:          %s' % (l[:2000], str(io)[:1500], str(mo)[:1500])))
     verdict.cov.update(
         evaluations=sum(counts.values()), distinct_nontrivial=len(set(l.split(' ', 2)[2] for l in lines if l.split()[1] in impl)),
-        rule='R: quantum search for fixed + seeded rates (1 .. 1e10.5); B: seeded op sequences on one bucket with a fake clock (Take counts 1..20000 and <= 0, TakeMaxDuration, Available, advances 0..20 s incl. +-1 ns around the fill interval); S: session scenarios rates {1000,5000,50000,1e6} x tx/rx x 1-3 sessions sharing one valve x 1-2 conns x write sizes / pacing, EVERY pair of events checked against the proved bound. distinct = distinct case bodies',
+        rule='R: quantum search for fixed + seeded rates (1 .. 1e10.5); B: seeded op sequences on one bucket with a fake clock (Take counts 1..20000 and <= 0, TakeMaxDuration, Available, advances 0..20 s incl. +-1 ns around the fill interval); S: session scenarios rates {1000,5000,50000,1e6} x tx/rx x 1-3 sessions sharing one valve x 1-2 conns x write sizes / pacing, EVERY pair of events checked against the proved bound; long-backlog families (c19_backlog.py) on B (incl. Wait / WaitMaxDuration on the injected clock), L (the real LimitedValve.rxWait/txWait called directly by 1-451 goroutines) and S (rates 4 .. 16030 B/s, up to 9 sessions): queued demand of 1 s, 10 s, 30 s, 31 s, 60 s, 10 min, 1 h. distinct = distinct case bodies',
         samples=[lines[0], [l for l in lines if l[0] == 'B'][0][:300], [l for l in lines if l[0] == 'S'][0], [l for l in lines if l[0] == 'S'][5]],
         traces_validated_against_impl=len(impl), mismatches=len(mism), oracle_failures=orc_new, known_finding_hits=known,
         input_distribution=dict(kinds=counts, scenarios=vlib.summarize_dist([t.rsplit('/', 1)[0] for t in tags])),
@@ -757,6 +757,6 @@ def replay(ctx, verdict):
 
 MANIFEST = dict(
     technique='Coq proof by induction over all request sequences of a model of juju/ratelimit\'s token bucket (accounting lemma + monotone release ticks), in tick and in rate form; model tied to the library by differential execution with an injected clock and to Cloak\'s use of it by real Sessions with a real LimitedValve under virtual time (testing/synctest), every interval between events checked',
-    level_text='C19_bound: for EVERY request sequence with non-decreasing times and EVERY interval [s,e], bytes released <= quantum*(ticks touched) + max(capacity, largest request) (proved: release ticks are monotone; a block of requests released inside a tick window is paid for by the bucket content at its first arrival plus the refill). C19_partial: for MakeValve\'s buckets and messages <= one second\'s worth this is 1.01*rate*t + rate + 2 quanta. C19_refuted: the literal property (all message sizes) is FALSE - at 1000 B/s a 16401-byte frame is released whole (F14, known finding, reproduced on the real sessions). C19_shared: all sessions of a user draw from one bucket, so the bound holds for their sum. C19_not_starved_partial (model, ideal sleeps): a backlogged sender gets at least 0.99*rate. Every run: ~150 rates through the real quantum search, 2000 op sequences on the real bucket with a fake clock, 64 session scenarios under virtual time with every pair of events checked against the bound, deterministic scenarios compared with the model to the nanosecond, pointer identity of the valve across sessions from the real userPanel.',
+    level_text='C19_bound: for EVERY request sequence with non-decreasing times and EVERY interval [s,e], bytes released <= quantum*(ticks touched) + max(capacity, largest request) (proved: release ticks are monotone; a block of requests released inside a tick window is paid for by the bucket content at its first arrival plus the refill). C19_partial: for MakeValve\'s buckets and messages <= one second\'s worth this is 1.01*rate*t + rate + 2 quanta. C19_refuted: the literal property (all message sizes) is FALSE - at 1000 B/s a 16401-byte frame is released whole (F14, known finding, reproduced on the real sessions). C19_shared: all sessions of a user draw from one bucket, so the bound holds for their sum. C19_not_starved_partial (model, ideal sleeps): a backlogged sender gets at least 0.99*rate. C19_never_released_early / C19_backlog_wait / C19_wait_unbounded: the wait is unbounded in the backlog - the request completing the first K requested bytes is released no earlier than tick (K - capacity)/quantum, for every sequence and message size; C19_bound_from_start: counted from the creation of the valve the literal bound holds for all message sizes; C19_refuted_capped_wait: a valve using WaitMaxDuration(30 s) releases unpaid messages. Generated obligation Proofs/AtomValve.v: the valve calls Bucket.Wait (or Take + time.Sleep) and nothing else of the bucket API, once, before the write / between read and processing. Every run: ~150 rates through the real quantum search, 2000 op sequences on the real bucket with a fake clock, 114 session scenarios under virtual time with every pair of events checked against the bound (and every prefix against the bound from the start), 95 scenarios calling the real valve directly, long-backlog families with 1 s .. 1 h of queued demand on one valve (message/rate ratios, 2-451 concurrently blocked senders over streams / connections / sessions, small messages behind big ones, both directions), deterministic scenarios (single writer, or concurrent senders with distinct request instants) compared with the model to the nanosecond, pointer identity of the valve across sessions from the real userPanel.',
     level_note='Upper bound only for the deployed system (timers oversleep). F14: burst of one message exceeds one second\'s worth when rate < message size (known finding). Trusted: Coq kernel, extraction, synctest, float64 quantum search validated by comparison, bolt.',
     design_ref='DESIGN.md section 6, C19; finding F14')
